@@ -5,7 +5,7 @@
 class TwoWire {
 public:
   void begin();
-  void setClock(unsigned long);
+  void setClock(uint32_t);
 };
 extern TwoWire Wire;
 #endif
